@@ -84,38 +84,32 @@ def _wrap(
         if parsed.duration is not None:
             duration = parsed.duration
 
+            if isinstance(duration, Duration):
+                # The pure-Python parser hands over a normalised Duration:
+                # use the components as they were written (PT36H is 36
+                # elapsed hours, not 1 day and 12 hours on the wall clock),
+                # like the compiled parser reports them.
+                units = duration._signature  # type: ignore[attr-defined]
+            else:
+                units = {
+                    "years": duration.years,
+                    "months": duration.months,
+                    "weeks": duration.weeks,
+                    "days": duration.remaining_days,
+                    "hours": duration.hours,
+                    "minutes": duration.minutes,
+                    "seconds": duration.remaining_seconds,
+                    "microseconds": duration.microseconds,
+                }
+
             if parsed.start is not None:
                 dt = _datetime(parsed.start, **options)
 
-                return pendulum.interval(
-                    dt,
-                    dt.add(
-                        years=duration.years,
-                        months=duration.months,
-                        weeks=duration.weeks,
-                        days=duration.remaining_days,
-                        hours=duration.hours,
-                        minutes=duration.minutes,
-                        seconds=duration.remaining_seconds,
-                        microseconds=duration.microseconds,
-                    ),
-                )
+                return pendulum.interval(dt, dt.add(**units))
 
             dt = _datetime(t.cast(datetime.datetime, parsed.end), **options)
 
-            return pendulum.interval(
-                dt.subtract(
-                    years=duration.years,
-                    months=duration.months,
-                    weeks=duration.weeks,
-                    days=duration.remaining_days,
-                    hours=duration.hours,
-                    minutes=duration.minutes,
-                    seconds=duration.remaining_seconds,
-                    microseconds=duration.microseconds,
-                ),
-                dt,
-            )
+            return pendulum.interval(dt.subtract(**units), dt)
 
         return pendulum.interval(
             _datetime(t.cast(datetime.datetime, parsed.start), **options),
